@@ -771,7 +771,7 @@ esl_msa_GuessAlphabet(const ESL_MSA *msa, int *ret_type)
       for (i = 0; i < msa->nseq; i++) {
 	for (j = 0; j < msa->alen; j++) {
 	  x = toupper(msa->aseq[i][j]) - 'A';
-	  if (x < 0 || x > 26) continue;
+	  if (x < 0 || x > 25) continue;   /* ct[] has 26 counters: '[' is 'A'+26 */
 	  ct[x]++;
 	  n++;
 	  if (n > 10000) break;	/* ought to know by now */
